@@ -69,7 +69,8 @@ Record TOk (T : table) : Prop := mkTOk {
   o_pf_dmg_inval_u : t_pf_dmg_inval_u T = true; o_pf_el_inval_d : t_pf_el_inval_d T = true;
   o_csr_key_groups : t_csr_key_groups T = true; o_csr_key_ndof : t_csr_key_ndof T = true;
   o_mass_key_group : t_mass_key_group T = true; o_model_cache_refresh : t_model_cache_refresh T = true;
-  o_param_set_unconditional : t_param_set_unconditional T = true
+  o_param_set_unconditional : t_param_set_unconditional T = true;
+  o_param_get_copies : t_param_get_copies T = true
 }.
 
 Lemma not_never_spec m : not_never m = true -> m <> NNever.
@@ -518,6 +519,8 @@ Proof.
     apply recfg_raise; auto. simpl. apply (i_sub _ _ _ I).
   - (* ORay *) apply on_sim_inv; auto. intros s I. rewrite (o_ray_need _ O).
     apply recfg_raise; auto. simpl. apply (i_sub _ _ _ I).
+  - (* ORhoAug *) rewrite (o_param_get_copies _ O). apply on_sim_inv; auto. intros s I. rewrite (o_rho_need _ O).
+    apply recfg_raise; auto. simpl. apply (i_sub _ _ _ I).
   - (* OSetMesh *) destruct (Nat.ltb m (length (meshes w))) eqn:L; auto. apply Nat.ltb_lt in L.
     apply on_sim_inv; auto. intros. apply setmesh_sim_inv; auto.
   - (* OBcInit *) apply on_sim_inv; auto. intros s I.
@@ -760,11 +763,11 @@ Qed.
 Definition op_tag (o : op) : nat :=
   match o with
   | OParam _ => 0 | OParamArr _ _ => 1 | OMeshMove _ _ => 2 | ONewMesh => 3 | OGeoRead _ => 4 | ONewSim _ _ => 5
-  | ORho _ => 6 | ORay _ => 7 | OSetMesh _ _ => 8 | OBcInit _ => 9 | ODirichlet _ _ => 10 | ONeumann _ => 11
+  | ORho _ => 6 | ORhoAug _ _ => 18 | ORay _ => 7 | OSetMesh _ _ => 8 | OBcInit _ => 9 | ODirichlet _ _ => 10 | ONeumann _ => 11
   | OLagrange _ => 12 | OAlgo _ _ => 13 | OGetK _ _ => 14 | OSolve _ => 15 | OSaveIter _ => 16 | OSetIter _ _ => 17
   end.
 Definition covers_all_ops (ops : list op) : bool :=
-  forallb (fun t => existsb (fun o => Nat.eqb (op_tag o) t) ops) (seq 0 18).
+  forallb (fun t => existsb (fun o => Nat.eqb (op_tag o) t) ops) (seq 0 19).
 
 Definition long_history : list op :=
   [ONewSim KLin 0; ONewSim KPF 0; ONewSim KNonLin 0; ODirichlet 0 2; OLagrange 0; ONeumann 0; OGetK 0 false;
@@ -774,7 +777,7 @@ Definition long_history : list op :=
    OSaveIter 0; ONewMesh; OSetMesh 2 2; OSolve 2; OSaveIter 2; ORho 2; ORay 0; OAlgo 0 1%N; OAlgo 2 2%N;
    OSetIter 0 0; OBcInit 0; OGetK 0 false; OMeshMove 0 MCoordSet; OMeshMove 1 MRotate; OSetIter 2 0; OSolve 2;
    OSetIter 1 0; OSolve 1; OSetMesh 1 1; OSolve 1; OParam true; OMeshMove 2 MCoordSet; ONewSim KLin 2; OSolve 3;
-   OSetIter 0 1; OLagrange 0; ODirichlet 0 3; OBcInit 0; OSolve 0].
+   OSetIter 0 1; OLagrange 0; ODirichlet 0 3; OBcInit 0; OSolve 0; ORhoAug 0 3; OSolve 3].
 
 Example long_history_covers_every_op : covers_all_ops long_history = true.
 Proof. vm_compute. reflexivity. Qed.
